@@ -204,6 +204,40 @@ func CheckC08(sp Spec, o Obs) []Finding {
 		return fs
 	}
 	exp := Walk(Tokenize([]byte(sp.Script), sp.NS))
+	// Responses to outstanding requests of the session go to the waiting call,
+	// not to the handler: they are taken out of the expectation. One that holds a
+	// stream-level construct (or is cut short) must end the session there.
+	divStop := -1
+	if len(sp.Pend) > 0 {
+		fates := ExpectedFates(sp, exp)
+		var kept []ExpElem
+		for i, el := range exp.Elems {
+			if !fates[i].Div {
+				kept = append(kept, el)
+				continue
+			}
+			if el.DirtyAt >= 0 || el.Truncated {
+				divStop = len(kept)
+				break
+			}
+		}
+		exp.Elems = kept
+		if divStop >= 0 {
+			exp.Terminal = "nested-construct-in-response"
+		}
+	}
+	if divStop >= 0 && (len(o.Invs) > divStop || (len(o.Invs) == divStop && o.Ret.Code == 0)) {
+		clean := true // the invocations before it ended well, so Serve did reach the response
+		for j := 0; j < divStop && j < len(o.Invs); j++ {
+			if o.Invs[j].Ret.Code != 0 || exp.Elems[j].DirtyAt >= 0 {
+				clean = false
+			}
+		}
+		if clean {
+			add("serve/diverted-nested-construct-not-fatal", "a response handed to a waiting call holds a stream-level construct (or is cut short); Serve went on (%d invocations, returned %v)", len(o.Invs), o.Ret)
+			return fs
+		}
+	}
 	// (1) one invocation per element, in order
 	if len(o.Invs) > len(exp.Elems) {
 		add("serve/extra-invocation", "handler invoked %d times for %d top-level elements", len(o.Invs), len(exp.Elems))
